@@ -412,10 +412,11 @@ func init() {
 		r.Rule = fmt.Sprintf("%d mutation scripts (launch / provider-id set late / pods completing, deleted, recreated under the same name elsewhere / Node and NodeClaim deletions in both orders / explicit deletion marks and deleting claims / CSINode limits / two pools) are applied to the API; after every mutation each notified key is either delivered to the REAL informer reconciler at once (default) or deferred, and earlier keys may be re-delivered (duplicates); all delivery histories with <=%d such deviations are explored, each ending with the delivery of the still-unobserved keys in each of 12 orders (6 kind orders x 2 key orders, level-triggered retries). "+
 			"Oracle, evaluated at EVERY point where the latest version of every object has been observed (not only at the end): the cache observed through exported accessors must equal (1) a fresh cache fed the final objects claims-first and (2) one fed nodes-and-pods-first, and (3) an independent recomputation of node set, per-node pod/daemon cpu, disruption cost, deletion marks and per-pool totals from the API objects. states = quiescent points checked; non-trivial = distinct (script, delivery history)", len(names), bound)
 		r.Assumptions = []string{"deliveries are atomic (no preemption inside an informer reconcile)", "explicit deletion marks are in-memory inputs; the reference tracks them by provider id"}
-		enum.Run(r, int64(len(names)), func(i int64, l *ev.Local) {
+		enum.RunEveryShard(r, int64(len(names)), func(i int64, l *ev.Local) {
 			script := c11Scripts[names[i]]
-			ex := &explore.Explorer{Bound: bound, MaxExecs: 400000, Stop: r.Expired}
+			ex := &explore.Explorer{Bound: bound, MaxExecs: 400000, Stop: r.Expired, Shard: r.Shard, NShards: r.Shards}
 			ex.Exec = func(run *explore.Run) {
+				l.Mute = run.Replica
 				w := world.New(world.Options{})
 				w.CP.Catalog[""] = world.BuildCatalog(K1)
 				w.Add(world.NodeClass(), world.NodePool("a"), world.NodePool("b"))
@@ -551,7 +552,7 @@ func init() {
 				}
 				got := digestCluster(w, w.Cluster)
 				l.Eval()
-				l.Traces++
+				l.Trace()
 				l.States += int64(checkpoints)
 				l.Nontrivial(names[i] + "/" + strings.Join(x.history, ","))
 				l.Outcome(strings.Join(got, " | "))
@@ -560,6 +561,7 @@ func init() {
 				}
 			}
 			ex.Explore()
+			noteDiverged(l, ex, "prefix")
 			l.Transitions += int64(ex.Points)
 			if ex.Capped {
 				l.Outcome("exploration-capped")
